@@ -28,6 +28,13 @@ theorem registry_methods_atomic :
       m.2.2.1 = true ∨ (m.2.1 = "PushBlob" ∧ m.2.2.2 = ["makeRepo"]) ∨
         (m.2.1 = "PushBlobChunked" ∧ m.2.2.2 = ["PushBlobChunkedResume"]) := by decide
 
+/-- No deferred evaluation outside the lock: no exported method hands its caller a function
+(a lazily evaluated listing, say) that reads a map of the registry's state — or a map it was given
+under the lock — after the method has returned and released the registry mutex. (Function literals
+that are consumed inside the critical section that created them, such as the reference iterators
+used by the delete checks, are listed in `closureStateAccesses` and are not leaks.) -/
+theorem no_lazy_state_leaks : lazyStateLeaks = [] := by decide
+
 /-! ## The concurrent model: every interleaving of atomic steps
 
 `H` (the content hash) is a parameter throughout; nothing is assumed about it. -/
